@@ -24,6 +24,8 @@ class ParsingContext:
     raw_spec_schemas: dict[str, Mapping[str, Any]] = field(default_factory=dict)
     raw_spec_components: Mapping[str, Any] = field(default_factory=dict)
     parsed_schemas: dict[str, IRSchema] = field(default_factory=dict)
+    # Raw (declared) schema name -> key it is registered under in parsed_schemas (the sanitized class name, usually)
+    registered_keys_by_raw_name: dict[str, str] = field(default_factory=dict)
     visited_refs: Set[str] = field(default_factory=set)
     global_schema_names: Set[str] = field(default_factory=set)
     package_root_name: str | None = None
